@@ -61,3 +61,38 @@ crate::vp_harness!(point_query_order, |s| {
 // map under a lawful Ord on the stored keys + query is an assumed contract on std. The rows above are exactly that
 // lawfulness: a strict total order on pairwise-disjoint spans, and a point query that is Equal to the unique
 // containing span and correctly ordered against all others.
+
+// ---- concrete-only row (never run under Kani: BTreeMap is too heavy for CBMC): the real CodeMap::{new, insert, get}
+// against a list model. Used by the driver to find a concrete failing input when a Verus obligation of
+// contracts/c10_codemap.vspec fails, and as a cross-check of the assumed BTreeMap contract.
+crate::vp_harness!(codemap_model__concrete_only, |s| {
+    let n = 1 + (s.below(6) as usize);
+    let mut m = CodeMap::new();
+    let mut model: [(usize, usize, usize); 6] = [(0, 0, 0); 6];
+    let mut cnt = 0usize;
+    let mut k = 0usize;
+    while k < n {
+        let a = (s.below(40) as usize) * 4;
+        let len = 1 + (s.below(12) as usize);
+        let b = a + len;
+        let mut clash = false;
+        let mut j = 0usize;
+        while j < cnt { if a.max(model[j].0) < b.min(model[j].1) { clash = true; } j += 1; }
+        if !clash {
+            m.insert(Address::from(a), Address::from(b), CodeId::from(100 + k));
+            model[cnt] = (a, b, 100 + k);
+            cnt += 1;
+        }
+        k += 1;
+    }
+    let mut p = 0usize;
+    while p < 180 {
+        let r = m.get(Address::from(p));
+        let mut want: Option<usize> = None;
+        let mut j = 0usize;
+        while j < cnt { if model[j].0 <= p && p < model[j].1 { want = Some(model[j].2); } j += 1; }
+        crate::vp_note!("ranges {:?} address {} -> {:?}, expected {:?}", &model[..cnt], p, r.map(|c| c.idx()), want);
+        crate::vp_check!(r.map(|c| c.idx()) == want, "CodeMap::get resolves every address to the unique registered range containing it");
+        p += 1;
+    }
+});
